@@ -512,8 +512,8 @@ fn main() {
     let mut distinct: HashSet<String> = HashSet::new();
     let mut dist: BTreeMap<String, u64> = BTreeMap::new();
     let mut bump = |k: &str| { *dist.entry(k.to_string()).or_insert(0) += 1; };
-    let n_valid = if thorough { 1500 } else { 230 };
-    let n_malformed = if thorough { 300 } else { 50 };
+    let n_valid = if thorough { 1500 } else { 200 };
+    let n_malformed = if thorough { 300 } else { 40 };
     let mut samples: Vec<J> = vec![];
     let mut name_cases: Vec<(String, J)> = vec![];
     let mut n_evals: u64 = 0;
